@@ -594,6 +594,7 @@ def run(ctx: core.Run):
     # =============== 4. the layer name: setter -> save -> open, bytes vs model ===============
     name_matrix(ctx, drv, quick)
     name_path(ctx, drv, rng, quick, corp_strings, wellformed)
+    rename_histories(ctx, quick)
 
     ctx.rule = (
         "strings: corpus witnesses + one seeded string of every length 0..255 over mixed classes {ascii, MacRoman-only latin, Cyrillic, "
@@ -1072,6 +1073,144 @@ def name_model_compare(ctx, drv, reqs, info):
                 ctx.disagree("name path: model != code (error)", {"input": inp, "codec": rq[1], "impl": impl, "model": stage})
 
 
+# ---- rename histories: the name a layer HAD must not matter ---------------------------------------
+RENAME_ENCODINGS = ["macroman", "utf_8", "maccyrillic"]
+
+
+def _save_open_name(psd, idx, enc):
+    from psd_tools import PSDImage
+    out = io.BytesIO()
+    psd.save(out, encoding=enc)
+    q = PSDImage.open(io.BytesIO(out.getvalue()), encoding=enc)
+    l2 = list(q.descendants())[idx]
+    return l2.name, l2._record.name
+
+
+def rename_name_set():
+    """-> (names, collides): the name classes of NAME_CLASSES plus every literal text a stored form of one of them
+    collides with, DERIVED on the real code and from Python's codecs: the legacy field the library keeps in memory after
+    the name was set ("?" after a name MacRoman cannot express), the legacy field of the saved file as read back under
+    every rename encoding (fallback / truncated forms of long names), decode(encode(n)) for every codec where it is not n
+    (non-injective codecs), the 'replace' / 'ignore' forms under the legacy codecs, NFC / NFD forms (equal legacy forms
+    of different Unicode strings), prefixes at the field-width boundaries. collides[a] = set of texts derived from a."""
+    import unicodedata
+    makers = name_makers()
+    mode, mk = makers["api:pixel"]
+    base = list(dict.fromkeys(list(NAME_CLASSES.values()) + ["\U0001F47D alien", "nul\x00name", "\u1eb9\u0301", "\u00e9", "??", "? "]))
+    names = list(base)
+    collides = {}
+
+    def derive(n):
+        out = []
+        try:
+            psd, idx = mk(n)
+            layer = list(psd.descendants())[idx]
+            layer.name = n
+            out.append(layer._record.name)
+            for enc in RENAME_ENCODINGS:
+                try:
+                    out.append(_save_open_name(psd, idx, enc)[1])
+                except Exception:  # noqa (judged by name_case)
+                    pass
+        except Exception:  # noqa
+            pass
+        for enc in WIDE_ENCODINGS:
+            b = try_encode(n, enc)
+            if b is not None:
+                d = try_decode(b, enc)
+                if d is not None:
+                    out.append(d)
+        for enc in ("macroman", "maccyrillic", "ascii", "latin_1"):
+            for how in ("replace", "ignore"):
+                try:
+                    out.append(n.encode(enc, how).decode(enc))
+                except Exception:  # noqa
+                    pass
+        out += [unicodedata.normalize("NFC", n), unicodedata.normalize("NFD", n), n[:31], n[:63], n[:127], n[:254]]
+        return [x for x in dict.fromkeys(out) if isinstance(x, str) and x != n and len(x) < 256 and is_scalar_str(x)]
+
+    for n in base:
+        collides[n] = set(derive(n))
+        for x in collides[n]:
+            if x not in names:
+                names.append(x)
+    for n in names:
+        if n not in collides:
+            collides[n] = set(derive(n)) & set(names)
+    return names, collides
+
+
+def rename_case(ctx, label, mode, mk, history, enc, every_step, kind, save=True):
+    """first name through the creating call / the setter, the following ones through the setter; get-after-set after
+    every step, save(encoding) -> open(encoding) after every step (every_step) or after the last one."""
+    inp = {"op": "rename", "doc": label, "names": [cps(n) for n in history], "enc": enc}
+    ctx.count(("rename", label, tuple(history), enc), nontrivial=True)
+    ctx.hist("rename_history", kind)
+    try:
+        psd, idx = mk(history[0])
+        layer = list(psd.descendants())[idx]
+    except Exception as e:  # noqa
+        ctx.hist("rename_doc_not_prepared", type(e).__name__)
+        return
+    for step, n in enumerate(history):
+        upto = dict(inp, names=[cps(x) for x in history[:step + 1]])
+        if step > 0 or mode == "set":
+            try:
+                layer.name = n
+            except Exception as e:  # noqa
+                ctx.fail(f"C19/rename/setter-raises/{ecls(e)}/{kind}", "layer.name = s raises for a well-formed name shorter than 256 "
+                         "after the layer had other names", upto, ecls(e), "stored")
+                return
+        if layer.name != n:
+            ctx.fail(f"C19/rename/not-observable-at-once/{kind}", "layer.name != s right after the assignment (the layer had other names before)",
+                     upto, cps(layer.name), cps(n))
+            return
+        if save and (every_step or step == len(history) - 1):
+            try:
+                got = _save_open_name(psd, idx, enc)[0]
+            except Exception as e:  # noqa
+                sig = classify_unicode_failure(n, ecls(e)) or f"C19/rename/save-open-raises/{ecls(e)}/{kind}"
+                ctx.fail(sig, "rename history; save(encoding); open(encoding) fails", upto, ecls(e), cps(n))
+                return
+            if got != n:
+                sig = classify_unicode_failure(n, "differs") or f"C19/rename/lost-after-save-open/{kind}"
+                ctx.fail(sig, "rename history; save; open; name != the last name set", upto, cps(got), cps(n))
+                return
+
+
+def rename_histories(ctx, quick):
+    """Seed-independent. Every ordered pair (first, second) of the derived name set as a two-step history on a rotating
+    entry point and encoding; every pair whose second name is a text that a STORED FORM of the first collides with (and
+    the pair of equal names) on every entry point x every rename encoding, with a third step back to the first name."""
+    names, collides = rename_name_set()
+    makers = [(label, mode, mk) for label, (mode, mk) in name_makers().items()]
+    ctx.extra["rename_names"] = len(names)
+    k = 0
+    pairs = [(a, b) for a in names for b in names if a != b]
+    if quick:
+        # long x long pairs add nothing the boundary pairs do not have; keep the quick tier quick
+        pairs = [(a, b) for a, b in pairs if len(a) < 100 or len(b) < 100]
+    for a, b in pairs:
+        if b in collides.get(a, ()):
+            continue
+        label, mode, mk = makers[k % len(makers)]
+        enc = RENAME_ENCODINGS[(k // len(makers)) % len(RENAME_ENCODINGS)]
+        k += 1
+        # get-after-set on every pair; in the quick tier the save -> open of one pair in five
+        rename_case(ctx, label, mode, mk, [a, b], enc, False, "second-name-unrelated", save=(not quick or k % 5 == 0))
+    n_coll = 0
+    for a in names:
+        for b in sorted(collides.get(a, ())) + [a]:
+            for j, (label, mode, mk) in enumerate(makers):
+                for e, enc in enumerate(RENAME_ENCODINGS):
+                    if quick and (j + n_coll) % 4 != e:      # quick: two entry points per pair, encodings rotating
+                        continue
+                    rename_case(ctx, label, mode, mk, [a, b, a] if a != b else [a, a], enc, True,
+                                "second-name-is-a-stored-form-of-the-first" if a != b else "same-name-twice")
+            n_coll += 1
+    ctx.extra["rename_histories"] = k + n_coll
+
+
 NAME_CLASSES = {
     "empty": "", "ascii": "Layer 1", "macroman-latin": "Caf\u00e9 \u00a9 2024", "macroman-greek-math": "\u03a9 \u221a \u2260",
     "latin-1-beyond-macroman": "\u00d0\u00fd\u00de \u00bd\u00d7", "latin-beyond-latin-1": "\u0141\u00f3d\u017a \u0151\u0171",
@@ -1288,6 +1427,19 @@ def replay(ctx, data):
             p.save(out, encoding=inp["enc"])
             q = PSDImage.open(_io.BytesIO(out.getvalue()), encoding=inp["enc"])
             print("names after save/open ->", [cps(l.name) for l in q.descendants()][:5])
+        except Exception as e:  # noqa
+            print("raises", type(e).__name__, e)
+    elif op == "rename":
+        mode, mk = name_makers()[inp["doc"]]
+        hist = [from_cps(x) for x in inp["names"]]
+        try:
+            p, idx = mk(hist[0])
+            layer = list(p.descendants())[idx]
+            for step, n in enumerate(hist):
+                if step > 0 or mode == "set":
+                    layer.name = n
+                print("step", step, "set", cps(n), "-> name", cps(layer.name), "legacy field", cps(layer._record.name))
+            print("after save/open ->", [cps(x) for x in _save_open_name(p, idx, inp["enc"])])
         except Exception as e:  # noqa
             print("raises", type(e).__name__, e)
     elif op == "resname":
